@@ -24,7 +24,7 @@ theorem items_ref (en : Endian) (all : Items) (p : Bytes) (v : Value) : ∀ (is 
       simp only [Pdlv.encItem, BEq.rfl] at ha
       obtain ⟨X, hX, h4⟩ := bind_ok _ _ _ ha
       simp only [Outcome.ok.injEq] at h4
-      simp only [Java.encItems, chunk_ref en all p.length v fs hw.1 X hX, Outcome.bind, items_ref en all p v r b hw.2 hb, h4]
+      simp only [Java.encItems, chunk_ref en all p.length v fs (by simp only [chunkWf, Bool.and_eq_true, decide_eq_true_eq] at hw; exact ⟨bfOkE_of_J fs hw.1.1, hw.1.2⟩) X hX, Outcome.bind, items_ref en all p v r b hw.2 hb, h4]
       exact h3
     | typedef a b c => simp [wfItems] at hw
     | optional a b c d => simp [wfItems] at hw
@@ -50,6 +50,99 @@ theorem java_packs_groups_up_to_32_bits (c : Cfg) (nm : String) (items : Items) 
   · rename_i p hp
     simp only [hp]
     exact items_ref c.e items p v items bs hw h
+
+theorem scalars_ref (en : Endian) (w : Nat) : ∀ (vs : List Value) (bs : Bytes),
+    encListWith (encTy { e := en, mode := .ideal } (.scalar w)) vs = .ok bs → Java.encScalars en w vs = .ok bs
+  | [], bs, h => by simpa [encListWith, Java.encScalars] using h
+  | x :: r, bs, h => by
+    simp only [encListWith] at h
+    obtain ⟨a, ha, h2⟩ := bind_ok _ _ _ h
+    obtain ⟨b, hb, h3⟩ := bind_ok _ _ _ h2
+    cases x with
+    | int x =>
+      simp only [encTy, elemOutOfRange, decide_eq_true_eq] at ha
+      split at ha
+      · cases ha
+      · split at ha
+        · cases ha
+        · rename_i _ hm
+          have hlt : x < 2 ^ w := by
+            simp only [maskBits] at hm
+            have := Nat.two_pow_pos w
+            omega
+          simp only [Outcome.ok.injEq] at ha h3
+          simp only [Java.encScalars, if_neg (show ¬ x ≥ 2 ^ w by omega), scalars_ref en w r b hb, Outcome.bind, putGroup,
+            Nat.mod_eq_of_lt hlt, ha, h3]
+    | arr _ => simp [encTy] at ha
+    | obj _ => simp [encTy] at ha
+    | null => simp [encTy] at ha
+
+theorem items_refE (en : Endian) (all : Items) (p : Bytes) (v : Value) : ∀ (is : Items) (bs : Bytes),
+    encWfItems is = true → Pdlv.encItems { e := en, mode := .ideal } all (.ok p) p.length v is = .ok bs →
+      Java.encItems en all p v is = .ok bs
+  | .nil, bs, _, h => by simpa [Pdlv.encItems, Java.encItems] using h
+  | .cons i r, bs, hw, h => by
+    simp only [Pdlv.encItems] at h
+    obtain ⟨a, ha, h2⟩ := bind_ok _ _ _ h
+    obtain ⟨b, hb, h3⟩ := bind_ok _ _ _ h2
+    cases i with
+    | chunk fs =>
+      simp only [encWfItems, Bool.and_eq_true, decide_eq_true_eq] at hw
+      simp only [Pdlv.encItem, BEq.rfl] at ha
+      obtain ⟨X, hX, h4⟩ := bind_ok _ _ _ ha
+      simp only [Outcome.ok.injEq] at h4
+      simp only [Java.encItems, chunk_ref en all p.length v fs hw.1 X hX, Outcome.bind, items_refE en all p v r b hw.2 hb, h4]
+      exact h3
+    | typedef a b c => simp [encWfItems] at hw
+    | optional a b c d => simp [encWfItems] at hw
+    | payload m =>
+      simp only [encWfItems] at hw
+      simp only [Pdlv.encItem] at ha
+      cases ha
+      simp only [Java.encItems, Outcome.bind, items_refE en all p v r b hw hb]
+      exact h3
+    | array id elem ew shape pad =>
+      cases elem with
+      | scalar w =>
+        cases ew with
+        | static k =>
+          cases pad with
+          | none =>
+            simp only [encWfItems, Bool.and_eq_true, decide_eq_true_eq] at hw
+            simp only [Pdlv.encItem] at ha
+            obtain ⟨vs, hvs, h4⟩ := bind_ok _ _ _ ha
+            obtain ⟨u, hu, h5⟩ := bind_ok _ _ _ h4
+            obtain ⟨u2, _, h6⟩ := bind_ok _ _ _ h5
+            obtain ⟨es, hes, h7⟩ := bind_ok _ _ _ h6
+            simp only [padTo, Outcome.ok.injEq] at h7
+            have hg : ¬ (w % 8 ≠ 0 ∨ w = 0 ∨ w > 64) := by omega
+            simp only [Java.encItems, if_neg hg, hvs, hu, Outcome.bind, scalars_ref en w vs es hes,
+              items_refE en all p v r b hw.2 hb, h7]
+            exact h3
+          | some _ => simp [encWfItems] at hw
+        | dynamic => simp [encWfItems] at hw
+        | unknown => simp [encWfItems] at hw
+      | enumTy _ _ => simp [encWfItems] at hw
+      | struct _ _ => simp [encWfItems] at hw
+      | custom _ _ => simp [encWfItems] at hw
+
+/-- **C19, size and count fields, arrays, payloads (serializer).**  For every packet or struct without parent made of bit-field
+    groups of at most 32 bits — size and count fields with their modifiers among them —, arrays of scalars of whole octets and
+    payloads (`Java.encWfItems`: decidable, evaluated per run), both byte orders, and every value the reference assigns an
+    encoding to: the model of the emitted `toBytes()` — the size expression summed in `int`, the `fieldWidth`-style range
+    check, `encode_bytes` per element — writes exactly the reference encoding. -/
+theorem java_writes_arrays_and_payloads (c : Cfg) (nm : String) (items : Items) (hw : encWfItems items = true)
+    (hr : refWfBody (.root nm items) = true) (v : Value) (bs : Bytes)
+    (h : Pdlv.encBody { e := c.e, mode := .ideal } (.root nm items) v = .ok bs) :
+    Java.encBody c (.root nm items) v = .ok bs ∧ Ref.encode c.e (.root nm items) v = some bs := by
+  refine ⟨?_, encode_ideal_eq_ref c.e _ hr v bs h⟩
+  simp only [Pdlv.encBody] at h
+  simp only [Java.encBody]
+  split at h
+  · cases h
+  · rename_i p hp
+    simp only [hp]
+    exact items_refE c.e items p v items bs hw h
 
 /-- **C19, bit-field groups, parser side.**  For every packet or struct without parent made of bit-fields in groups of
     exactly 8, 16 or 32 bits (`Java.decWfItems`), both byte orders and EVERY byte string: the model of the emitted
@@ -109,6 +202,17 @@ example :
       (.cons (.payload .last) .nil))))
     decWfItems2 items = true ∧
     (Java.decodeFull { e := .little } (.root "P" items) [0x09, 0x34, 0x12, 0x78, 0x56, 0x32, 9, 8, 0xaa]).isOk = true := by
+  refine ⟨by decide, by rfl⟩
+
+/-! non-vacuity: `packet P { t: 1, _size_(a): 7, a: 16[], _count_(b): 4, u: 4, b: 8[], _payload_ }` is in the serializer's
+    extended class too -/
+example :
+    let items : Items := .cons (.chunk [.scalar "t" 1, .size "a" 7 0]) (.cons (.array "a" (.scalar 16) (.static 2) .sizeField none)
+      (.cons (.chunk [.count "b" 4, .scalar "u" 4]) (.cons (.array "b" (.scalar 8) (.static 1) .countField none)
+      (.cons (.payload .last) .nil))))
+    encWfItems items = true ∧
+    Java.encBody { e := .little } (.root "P" items) (.obj [("t", .int 1), ("a", .arr [.int 0x1234, .int 0x5678]), ("u", .int 3),
+      ("b", .arr [.int 9, .int 8]), ("payload", .arr [.int 0xaa])]) = .ok [0x09, 0x34, 0x12, 0x78, 0x56, 0x32, 9, 8, 0xaa] := by
   refine ⟨by decide, by rfl⟩
 
 /-! non-vacuity: `packet P { a: 3, _fixed_ = 5 : 5, e: 16, _reserved_ : 8 }` is in the class -/
